@@ -25,6 +25,7 @@ NLabels = {nlabels}
 SplitEverys = {{{ses}}}
 DtypeClass = "{dt}"
 WithMissing = {miss}
+Positional = {pos}
 INVARIANT InvResult
 INVARIANT InvLabels
 """
@@ -56,8 +57,9 @@ def pipeline(ctx, *, configs=None, confirm=True):
                        dict(maxlen=4, nlabels=1, ses="2, 3", dt="i8", miss="TRUE"),
                        dict(maxlen=4, nlabels=2, ses="2", dt="b1", miss="FALSE")]
     for c in configs:
+        c.setdefault("pos", "FALSE")
         cfg = PIPE_CFG.format(**c)
-        res = shared.run_model(ctx, "MC_Pipeline", cfg, name=f"MC_Pipeline[{c['dt']},len<={c['maxlen']}]",
+        res = shared.run_model(ctx, "MC_Pipeline", cfg, name=f"MC_Pipeline[{c['dt']},len<={c['maxlen']},positional={c['pos']}]",
                                constants=str(c), timeout=3000 if ctx.tier == "thorough" else 600)
         if res.violated:
             st = res.error_trace[-1] if res.error_trace else {}
@@ -75,7 +77,7 @@ def pipeline(ctx, *, configs=None, confirm=True):
     wd = tlc.new_workdir("pipe-neg")
     try:
         (wd / "AggTable.tla").write_text("---- MODULE AggTable ----\nEXTENDS Integers\nAggTable == <<\n  " + body + "\n>>\n====\n")
-        cfg = PIPE_CFG.format(maxlen=2, nlabels=2, ses="2", dt="f8", miss="FALSE")
+        cfg = PIPE_CFG.format(maxlen=2, nlabels=2, ses="2", dt="f8", miss="FALSE", pos="FALSE")
         res = tlc.run_tlc("MC_Pipeline", cfg, wd, workers=8, timeout=600)
         tlc.require_ok(res, "MC_Pipeline negative control")
         ctx.add_model("MC_Pipeline(negative control: max fill 0)", res, "mutated table")
